@@ -16,6 +16,11 @@ CLAIMS["C32"] = {
   "note": "Trusted: go/ssa, the canonical renderer (conversions between equal-width named types transparent; calls uninterpreted), the expected table transcribed from GP 14.8/14.16. Not decided: results of the PVM, erasure coding and Merkle functions that the fields are derived from.",
   "technique": "static analysis: SSA backward-slice provenance (canonical expression shapes incl. Σ/append accumulation) vs specification table",
 }
+CLAIMS["C34"] = {
+  "text": "Decides, on SSA, the effect/provenance tables of activity statistics: the exact store each per-validator updater performs (counter, index, increment; Guarantees guarded by reporters-set membership of the same validator's key), the dispatch of the six updaters with the header's author index and the block's extrinsic parts and the write-back of current records only, the epoch-rotation test (τ/E of prior vs posterior) with the setter calls confined to their arm, and field-for-field construction of core and service records from same-named sums over work digests, bundle size, DA load, popularity, provided and accumulate statistics.",
+  "note": "Trusted: canonical SSA expression renderer, expected table transcribed from GP 13.3-13.16. Not decided: reporter-set contents (guarantor assignment values), DA-load arithmetic, popularity bit indexing.",
+  "technique": "static analysis: SSA effect extraction (non-local stores, setter calls, struct-literal fields) and guard-edge confinement vs specification table",
+}
 NOT_APPLICABLE = {
  "C15": "equality of a 32-byte hash with an independent bit-level reference over all entry sets; the only static handles are byte constants of the node encodings (a frozen fragment) — no structural clause that is not circular; sibling agreement of cached/uncached recursion is claimed under C16",
  "C30": "round-trip equality whose mechanism is a Rust Reed-Solomon crate behind cgo; no Rust analyser is installed and the Go side is a thin FFI wrapper with no decidable clause of the statement",
